@@ -11,6 +11,7 @@ import (
 	"sort"
 	"strings"
 
+	"golang.org/x/sys/unix"
 	"tags.cncf.io/container-device-interface/pkg/cdi"
 	specs "tags.cncf.io/container-device-interface/specs-go"
 )
@@ -69,14 +70,14 @@ type PathPrio struct {
 }
 
 type Resolved struct {
-	Devices                                                                                    map[string]*Winner
-	Vendors                                                                                    []string
-	Classes                                                                                    []string
-	VendorSpecs                                                                                map[string][]PathPrio
-	ErrPaths                                                                                   map[string]bool // Spec-named files that must be reported
-	Conflicts                                                                                  map[string]bool // files taking part in a same-priority conflict
-	Shape                                                                                      string
-	HasShadow, HasConflictTop, HasConflictBelow, HasRepeat, HasMissing, HasInvalid, HasIgnored bool
+	Devices                                                                                                map[string]*Winner
+	Vendors                                                                                                []string
+	Classes                                                                                                []string
+	VendorSpecs                                                                                            map[string][]PathPrio
+	ErrPaths                                                                                               map[string]bool // Spec-named files that must be reported
+	Conflicts                                                                                              map[string]bool // files taking part in a same-priority conflict
+	Shape                                                                                                  string
+	HasShadow, HasConflictTop, HasConflictBelow, HasRepeat, HasMissing, HasInvalid, HasIgnored, HasSpecial bool
 }
 
 func (p *Pop) marker() string {
@@ -119,6 +120,11 @@ func (p *Pop) newInvalidFile(r *rand.Rand, phys int, name string) *PFile {
 
 var specFileNames = []string{"a.json", "b.yaml", "c.json", "d.yaml", "e.json", "vendor-class.yaml", ".hidden.json", "x.y.json"}
 var nonSpecNames = []string{"notes.txt", "a.json.bak", "spec.123.tmp", "README", "b.JSON", "c.yml", "d.yaml~", "sub/inner.json", "sub.json/inner.yaml"}
+
+// entries that are neither regular files nor directories (and have no Spec
+// name): a FIFO and a symbolic link to a directory; everything after them in
+// the directory must still be found
+var specialNames = []string{"0-fifo", "agent.pipe", "c-current", "m-link"}
 
 // genPop generates a population with 1..4 configured directories.
 func genPop(r *rand.Rand, root string, opt ...PopOpt) *Pop {
@@ -189,6 +195,15 @@ func genPop(r *rand.Rand, root string, opt ...PopOpt) *Pop {
 			used[name] = true
 			p.Files = append(p.Files, p.newValidFile(r, i, name))
 		}
+		if chance(r, 25) {
+			name := specialNames[r.Intn(len(specialNames))]
+			f := p.newValidFile(r, i, name)
+			f.Kind = "fifo"
+			if strings.Contains(name, "current") || strings.Contains(name, "link") {
+				f.Kind = "linkdir"
+			}
+			p.Files = append(p.Files, f)
+		}
 	}
 	return p
 }
@@ -232,6 +247,8 @@ func (p *Pop) writeFile(f *PFile) {
 	switch f.Kind {
 	case "dangling":
 		must(os.Symlink(filepath.Join(p.Root, "nowhere", "target.json"), path))
+	case "fifo":
+		must(unix.Mkfifo(path, 0o644))
 	case "linkdir": // a symbolic link to a directory which holds a valid Spec
 		target := filepath.Join(p.Root, "linktarget")
 		must(os.MkdirAll(target, 0o755))
@@ -327,7 +344,8 @@ func (p *Pop) Step(r *rand.Rand) string {
 			}
 			d := exist[r.Intn(len(exist))]
 			name := specFileNames[r.Intn(len(specFileNames))]
-			if chance(r, 25) {
+			if chance(r, 25) || f.Kind == "fifo" || f.Kind == "linkdir" {
+				// (a FIFO under a Spec name would block any reader: not a Spec file content question)
 				name = "renamed.bak"
 			}
 			if p.find(d, name) >= 0 {
@@ -406,6 +424,9 @@ func (p *Pop) Resolve() *Resolved {
 			}
 			if !f.specNamed() {
 				res.HasIgnored = true
+				if f.Kind == "fifo" || f.Kind == "linkdir" {
+					res.HasSpecial = true
+				}
 				continue
 			}
 			path := filepath.Join(dir, f.Name)
